@@ -31,4 +31,47 @@ mod proofs {
             assert!(r.is_err());
         }
     }
+
+    /// C16, byte level (thorough tier): ShmReader::new on an arbitrary file of arbitrary length <= 72, through a C model of
+    /// open/read/mmap/close/munmap (env_model.c, linked with -Z c-ffi): outcome iff, no panic, no out-of-bounds access
+    /// (Kani's memory checks are on).
+    mod open_file {
+        use clock_bound_shm::{ShmError, ShmReader};
+        use std::ffi::CStr;
+
+        extern "C" {
+            #[link_name = "VERIF_FILE"]
+            static mut FILE: [u8; 72];
+            #[link_name = "VERIF_FLEN"]
+            static mut FLEN: usize;
+        }
+
+        #[kani::proof]
+        #[kani::unwind(80)]
+        fn open_arbitrary_file() {
+            unsafe {
+                FILE = kani::any();
+                FLEN = kani::any();
+                kani::assume(FLEN <= 72);
+            }
+            let path = CStr::from_bytes_with_nul(b"/x\0").unwrap();
+            let r = ShmReader::new(path);
+            let f = unsafe { FILE };
+            let magic_ok = f[0] == 0x4E && f[1] == 0x5A && f[2] == 0x4D && f[3] == 0x41 && f[4] == 0 && f[5] == 2 && f[6] == 0x42 && f[7] == 0x43;
+            let segsize = u32::from_ne_bytes([f[8], f[9], f[10], f[11]]);
+            let ver = u16::from_ne_bytes([f[12], f[13]]);
+            let gen = u16::from_ne_bytes([f[14], f[15]]);
+            let flen = unsafe { FLEN };
+            let should_open = flen >= 16 && magic_ok && ver != 0 && gen != 0 && segsize >= 72;
+            match &r {
+                Ok(_) => assert!(should_open),
+                Err(ShmError::SegmentNotInitialized) => assert!(flen < 16 || !magic_ok || ver == 0 || gen == 0),
+                Err(ShmError::SegmentMalformed) => assert!(flen >= 16 && magic_ok && ver != 0 && gen != 0 && segsize < 72),
+                Err(_) => assert!(false),
+            }
+            kani::cover!(r.is_ok(), "a file that opens is reachable");
+            kani::cover!(matches!(r, Err(ShmError::SegmentMalformed)), "a malformed file is reachable");
+            std::mem::forget(r);
+        }
+    }
 }
